@@ -75,6 +75,23 @@ func (C20) Generate(rng *rand.Rand, tier string) []core.Case {
 		}
 	}
 	flush(n)
+	// the write stream wrapper: sends, callers that give up, responses, a broken stream
+	cases = append(cases, core.Case{Name: "stream-late-response", Ops: []string{"ws.run script=t1,s2,r,r", "ws.run script=s1,t2,s3,r,r,r", "ws.run script=t1,t2,s3,r,r,r,s4,r"}})
+	nw := 12
+	if tier == "thorough" {
+		nw = 300
+	}
+	var wops []string
+	for i := 0; i < nw; i++ {
+		wops = append(wops, genStreamOp(rng.Intn))
+		if len(wops) == 4 {
+			cases = append(cases, core.Case{Name: fmt.Sprintf("stream-%d", i), Ops: wops})
+			wops = nil
+		}
+	}
+	if len(wops) > 0 {
+		cases = append(cases, core.Case{Name: "stream-last", Ops: wops})
+	}
 	return cases
 }
 
@@ -684,6 +701,8 @@ func c20op(op string) string {
 		return c20MultiGet(kv)
 	case "km.run":
 		return c20Merge(kv)
+	case "ws.run":
+		return c20Stream(kv)
 	}
 	return "bad-op"
 }
@@ -714,6 +733,20 @@ func (C20) Oracle(ops, impl, model []string) string {
 		case "b.run":
 			if msg := c20BatcherOracle(kv, out, strings.HasPrefix(impl[i], "~")); msg != "" {
 				return fmt.Sprintf("op %d: %s (%s)", i, msg, out)
+			}
+		case "ws.run":
+			for _, t := range strings.Fields(out) {
+				p := strings.SplitN(t, "=", 2)
+				if len(p) != 2 {
+					continue
+				}
+				switch {
+				case p[1] == "DUP":
+					return fmt.Sprintf("op %d: request %s on the write stream completed more than once", i, p[0])
+				case p[1] == "timeout" || p[1] == "eof" || p[1] == "NONE" || p[1] == "err":
+				case p[1] != p[0]:
+					return fmt.Sprintf("op %d: request %s on the write stream was completed with the response to request %s", i, p[0], p[1])
+				}
 			}
 		case "wb.run", "rb.run":
 			for _, t := range strings.Fields(out) {
